@@ -57,6 +57,16 @@ fn is_rect(fragments: &[&Fragment]) -> bool {
             let line_b2 = fragments[b2].as_line().expect("expecting a line");
             line_a1.is_touching_aabb_perpendicular(line_b1)
                 && line_a2.is_touching_aabb_perpendicular(line_b2)
+                // lines that merely touch (a ladder, sides overhanging the
+                // corners) don't make a rectangle: the 2 pairs must be
+                // distinct sides which meet end to end at the 4 corners
+                && line_a1.start != line_a2.start
+                && line_b1.start != line_b2.start
+                && [line_a1, line_a2].iter().all(|a| {
+                    [a.start, a.end].iter().all(|p| {
+                        line_b1.has_endpoint(*p) || line_b2.has_endpoint(*p)
+                    })
+                })
         } else {
             false
         }
